@@ -398,11 +398,15 @@ pub fn run_timed_iter(cfg: &Cfg, steps: &mut dyn Iterator<Item = TimedStep>, tab
             WD_SINCE_MS.store(mono_ms(), SeqCst);
             let mut off = 0usize;
             while off < s.bytes.len() {
-                let n = unsafe { libc::write(wfd, s.bytes[off..].as_ptr() as *const libc::c_void, s.bytes.len() - off) };
+                // at most 256 KiB per write: every completed write is progress of the reader (the pipe holds 64 KiB),
+                // and the watchdog is about a reader that makes none
+                let want = (s.bytes.len() - off).min(256 * 1024);
+                let n = unsafe { libc::write(wfd, s.bytes[off..].as_ptr() as *const libc::c_void, want) };
                 if n <= 0 {
                     break;
                 }
                 off += n as usize;
+                WD_SINCE_MS.store(mono_ms(), SeqCst);
             }
             let consumed = match rfd {
                 Some(rfd) => {
